@@ -171,9 +171,21 @@ class NotifyPath(RuleAnalysis):
     def initial(self, fn):
         return [frozenset()]
 
+    def _carries_unwrap(self, node) -> bool:
+        """the call mentions `<x>.unwrap` - directly, in a lambda, or through a nested function defined in the analysed function"""
+        if any(isinstance(x, ast.Attribute) and x.attr == "unwrap" for x in ast.walk(node)):
+            return True
+        names = {x.id for x in ast.walk(node) if isinstance(x, ast.Name)}
+        fn = self.fn
+        for d in ast.walk(fn.node) if fn is not None else []:
+            if isinstance(d, (ast.FunctionDef, ast.AsyncFunctionDef)) and d is not fn.node and d.name in names \
+                    and any(isinstance(x, ast.Attribute) and x.attr == "unwrap" for x in ast.walk(d)):
+                return True
+        return False
+
     def keeps_opaque(self, g, node):
         # the call that carries the unwrap (retry wrapper given `ssl_object.unwrap`) is the event of interest, not something to look into
-        return any(isinstance(x, ast.Attribute) and x.attr == "unwrap" for x in ast.walk(node))
+        return self._carries_unwrap(node)
 
     def may_raise(self, node, fact):
         if isinstance(node, ast.Await):
@@ -186,7 +198,7 @@ class NotifyPath(RuleAnalysis):
 
     def raise_fact(self, node, fact, token):
         call = node.value if isinstance(node, ast.Await) and isinstance(node.value, ast.Call) else node
-        if isinstance(call, ast.Call) and any(isinstance(x, ast.Attribute) and x.attr == "unwrap" for x in ast.walk(call)):
+        if isinstance(call, ast.Call) and self._carries_unwrap(call):
             return [fact | {"unwrapped"}]  # the closing handshake was attempted; its failure is handled by the caller's arms
         return [fact]
 
@@ -221,7 +233,7 @@ class NotifyPath(RuleAnalysis):
         if isinstance(node, ast.Await) and isinstance(node.value, ast.Call):
             node = node.value
         if isinstance(node, ast.Call):
-            mentions_unwrap = any(isinstance(x, ast.Attribute) and x.attr == "unwrap" for x in ast.walk(node))
+            mentions_unwrap = self._carries_unwrap(node)
             if mentions_unwrap:
                 self.unwrap_sites.append((node, fact))
                 return [fact | {"unwrapped"}]
